@@ -72,3 +72,7 @@ package binary
 //@   ensures SpecConsumed[r] == 0
 //@   ensures forall x *Reader :: x != r ==> SpecConsumed[x] == old(SpecConsumed[x])
 //@   modifies SpecConsumed
+
+//@ # exported views of the writer for contracts in other packages
+//@ spec func SpecWOff(w *Writer) int = w.offset
+//@ spec func SpecWCap(w *Writer) int = len(w.buf)
